@@ -51,6 +51,8 @@ type ReqPlan struct {
 	Quirks []string `json:"quirks,omitempty"`
 	// DupQuery: "key=value" (escaped) of the first scalar query parameter the request carries
 	DupQuery string `json:"dup_query,omitempty"`
+	// DupHeader: name and value of the first scalar header parameter the request carries
+	DupHeader []string `json:"dup_header,omitempty"`
 	Auth    map[string]AuthDecision `json:"auth,omitempty"`
 	AuthDefault AuthDecision        `json:"auth_default"`
 	Ctl     CtlScript               `json:"ctl"`
@@ -432,6 +434,9 @@ func (pl *planner) buildForced(ri int, class string, modes map[string]string, ad
 				}
 			case "header":
 				plan.Headers = append(plan.Headers, [2]string{wire, v.Raw})
+				if plan.DupHeader == nil && !prm.Type.Slice && mode == "send" && len(vals) == 1 && v.Raw != "" {
+					plan.DupHeader = []string{wire, v.Raw}
+				}
 			case "form":
 				hasForm = true
 				form.Add(wire, v.Raw)
@@ -485,6 +490,9 @@ func (pl *planner) buildForced(ri int, class string, modes map[string]string, ad
 				}
 			case "header":
 				plan.Headers = append(plan.Headers, [2]string{wire, v.Raw})
+				if plan.DupHeader == nil && !prm.Type.Slice && mode == "send" && len(vals) == 1 && v.Raw != "" {
+					plan.DupHeader = []string{wire, v.Raw}
+				}
 			case "form":
 				hasForm = true
 				form.Add(wire, v.Raw)
